@@ -19,7 +19,7 @@ import (
 // cookies issued by the real server code, handed to the real IP listener: exactly one reply, which the
 // client can authenticate, carrying one fresh cookie per cookie / placeholder requested, pairwise
 // different, each opening under a currently valid server key to the session keys
-func c11Server(nph int) {
+func c11Server(nph int, rotated bool) {
 	c06clock()
 	v.SetNow(time.Unix(v.SynctestEpoch, 0).UTC())
 	tss = make(map[string]*tssItem)
@@ -34,6 +34,11 @@ func c11Server(nph int) {
 		ec, err := sc.EncryptWithNonce(key.Value, key.ID)
 		v.Assume(err == nil)
 		data.Cookie = append(data.Cookie, ec.Encode())
+	}
+	if rotated {
+		// the client's cookies are 25 h old: the server key they were issued under is still valid (3 days),
+		// but the server rotates to a new key before it answers
+		ntske.VerifProviderAge(provider, 25*time.Hour)
 	}
 	var ntpreq ntp.Packet
 	ntpreq.SetVersion(4)
@@ -94,5 +99,6 @@ func c11Server(nph int) {
 	v.Reach("C11.server")
 }
 
-func VerifC11Server0() { c11Server(0) }
-func VerifC11Server2() { c11Server(2) }
+func VerifC11Server0()  { c11Server(0, false) }
+func VerifC11Server2()  { c11Server(2, false) }
+func VerifC11Server1R() { c11Server(1, true) }
